@@ -71,6 +71,8 @@ func (ex *Exec) callFn(fr *Frame, st *State, pc *Term, fn *ssa.Function, args []
 		return ex.specForallRange(fr, st, pc, args[0].(VBV).T, args[1].(VBV).T, args[2]), pc
 	case "verif_validated":
 		return VBool{And(Not(Eq(args[0].(VPtr).T, C64(0))), ex.validatedPred(st, pc, fn.Signature.Params().At(0).Type(), args[0], 0))}, pc
+	case "verif_guarded":
+		return VBool{Select(st.comp(compGuarded, heldSort), lockID(args[0]))}, pc
 	case "verif_same":
 		// identity of two references (maps, pointers, slices): equal representation
 		a, b := toLeaves(args[0]), toLeaves(args[1])
